@@ -130,6 +130,10 @@ func flight4bGenerate(
 	); err != nil {
 		return nil, nil, err
 	}
+	if !bytes.Equal(serverHelloMessage.SessionID, state.SessionID) {
+		// The echoed session id is what tells the client that the session is resumed.
+		return nil, nil, newSRTPError(dtlserrors.ErrInvalidServerHello, alert.InternalError)
+	}
 	if err = commitFinalServerHello(state, serverHelloMessage, cipherSuiteID); err != nil {
 		return nil, nil, err
 	}
